@@ -1,10 +1,11 @@
 (* C10 — SCTE-35 state tracker: open/closed bookkeeping is consistent for every history.
    Statements only; proofs in Proofs/StateBasics.v, StateRun.v, StateDup.v, StateInv.v.
-   Model: Model/State.v = scte35/state.go with the F10 repairs of notes/candidate-fixes.patch.
+   Model: Model/State.v = scte35/state.go as of /repo 34afac6 (F10 repairs and the N1 repair: the duplicate
+   scan stores a descriptor once per call).
    A history is a list of calls (ProcessDescriptor / Close by pool index, Open); `run` yields one
    observation per call: closed ids, error, ids of Open() after the call; None = the call panicked. *)
 From Gots Require Import Base.Prelude Model.SegDesc Model.State Spec.Trackers
-  Proofs.SegProofs Proofs.StateBasics Proofs.StateRun Proofs.StateDup Proofs.StateInv Proofs.StateWrites Proofs.StateSpec Proofs.StatePinnedWitness.
+  Proofs.SegProofs Proofs.StateBasics Proofs.StateRun Proofs.StateDup Proofs.StateInv Proofs.StateWrites Proofs.StateMem Proofs.StateSpec Proofs.StatePinnedWitness.
 From Gots Require Exec.StateExec.
 From Gots Require Import Model.StatePinned.
 Import SegDesc State.
@@ -51,7 +52,13 @@ Print Assumptions C10_open_spec.
 (* ---- closed lists ---- *)
 (* ProcessDescriptor: closed is a run from the top of the stack (each was open immediately before,
    ordered last-opened first), each is closable by the incoming descriptor, the run is maximal, and a
-   rejected call closes nothing *)
+   rejected call closes nothing.
+   READING (audit item 12): "open immediately before the call" refers to the tracker's open stack
+   `open s`, which INCLUDES the pending program breakaway that Open() hides (C10_open_spec: Open() =
+   open s minus the element at blackoutIdx while inBlackout).  A breakaway that was never visible in
+   Open() can therefore be returned as closed (by 0x40/0x41/0x50/0x51) or by Close(); the trace checker
+   reads the text the same way (its `hidden` ghost, clause 2 over cur = hidden :: vis).  Read against the
+   Open() lists alone the clause would be false of the library by design of the blackout feature. *)
 Theorem C10_closed_sound : forall s d s' closed err, I1 s ->
   ProcessDescriptor s d = Ok (s', (closed, err)) ->
   exists keep, open s = keep ++ rev closed /\ Forall (fun c => CanClose d c = true) closed /\
@@ -89,6 +96,26 @@ Theorem C10_process_shape : forall s d s' closed err, I1 s ->
      open s' = if appended (ty d) then keep' ++ [d] else keep').
 Proof. exact process_shape. Qed.
 Print Assumptions C10_process_shape.
+
+(* ---- bounded memory (functional form of "no call can exhaust memory", N1 / /repo 34afac6) ---- *)
+(* After any history, everything the tracker keeps is bounded by the number of ProcessDescriptor calls in it:
+   the ring has exactly 10 entries, together they hold at most n_process cs descriptors (stored counts
+   with multiplicity), hence each entry does, and so does the open stack.  On the pinned tree the ring
+   entry of one signal time doubled with every further descriptor (C10_pinned_scan_doubles_refuted). *)
+Theorem C10_bounded_memory : forall pool cs, Forall (call_in_pool pool) cs ->
+  exists s g, gexec pool (NewState, g0) cs = Ok (s, g) /\ exec pool NewState cs = Ok s /\
+    length (received s) = 10 /\
+    stored (received s) <= n_process cs /\
+    (forall e, In (Some e) (received s) -> length (edescs e) <= n_process cs) /\
+    length (open s) <= n_process cs.
+Proof. exact bounded_memory. Qed.
+Print Assumptions C10_bounded_memory.
+
+(* one call stores at most one more descriptor and opens at most one more *)
+Theorem C10_process_mem_step : forall s d s' closed err, I1 s -> ProcessDescriptor s d = Ok (s', (closed, err)) ->
+  stored (received s') <= S (stored (received s)) /\ length (open s') <= S (length (open s)).
+Proof. exact process_mem. Qed.
+Print Assumptions C10_process_mem_step.
 
 (* ---- a descriptor whose signal carries no PTS is always rejected, nothing changes ---- *)
 Theorem C10_no_pts_rejected : forall s d, haspts d = false ->
@@ -262,6 +289,13 @@ Theorem C10_pinned_dup_twice_in_row_refuted :
     [ ([], 0, Ok [0]); ([0], 0, Ok [1]); ([1], 0, Ok [1]); ([1], 0, Ok [1]) ]%N.
 Proof. exact pinned_vss_accepted_twice. Qed.
 Print Assumptions C10_pinned_dup_twice_in_row_refuted.
+
+(* N1: seven descriptors at one signal time: the pinned scan keeps 64 entries (2^6), the repaired one 7 *)
+Theorem C10_pinned_scan_doubles_refuted :
+  ring_sizes (exec_pinned pool_d NewState hist_d) = [64; 0; 0; 0; 0; 0; 0; 0; 0; 0] /\
+  ring_sizes (match exec pool_d NewState hist_d with Ok s => s | _ => NewState end) = [7; 0; 0; 0; 0; 0; 0; 0; 0; 0].
+Proof. exact pinned_scan_doubles. Qed.
+Print Assumptions C10_pinned_scan_doubles_refuted.
 
 (* non-vacuity: a history with a breakaway, a descriptor closing through it, a resumption, an explicit
    close and a duplicate satisfies the hypotheses (indices in the pool, writes <= 10) and shows every
